@@ -225,6 +225,44 @@ def run_shard(spec, acc):
                 acc.add("exhaustive_partitions_with_junk")
                 await run_partition(acc, clock, stream, frames, cuts, garb, cid, f"exj{ji}")
         acc.add("exhaustive_partitions", 0)
+        # ---- streams of exactly k * 4096 bytes: the library's read(4096) comes back full and nothing follows
+        for ki, total in enumerate((4096, 8192, 12288, 4096 * 5)):
+            for vi, cutstyle in enumerate(("one", "at-4096", "random")):
+                cid = f"full-read:{total}:{cutstyle}"
+                if (ki * 3 + vi) % nsh != shard or not acc.want(cid):
+                    continue
+                rnd = random.Random(f"{spec['seed']}:C03:full:{total}:{cutstyle}")
+                peer = E.Peer("PEER", "ME")
+                peer.next_out = 2
+                frames = make_frames(rnd, peer, [rnd.choice(["nos", "grp", "big", "small"]) for _ in range(rnd.randrange(2, 6))])
+                base = sum(len(fb) for _, fb in frames)
+                while total - base > 1500:
+                    frames += make_frames(rnd, peer, ["big"])
+                    base = sum(len(fb) for _, fb in frames)
+                need = total - base
+                n0 = peer.next_out
+                pad = None
+                for x in range(max(0, need - 120), need):
+                    peer.next_out = n0
+                    fb = peer.frame("8", None, [(11, "pad"), (58, "P" * x), (17, "e9")])
+                    if len(fb) == need:
+                        pad = fb
+                        break
+                if pad is None:
+                    acc.add("full_read_stream_not_built")
+                    continue
+                frames.append(("a", pad))
+                stream = b"".join(fb for _, fb in frames)
+                assert len(stream) == total
+                if cutstyle == "one":
+                    cuts = ()
+                elif cutstyle == "at-4096":
+                    cuts = tuple(range(4096, total, 4096))
+                else:
+                    cuts = tuple(sorted(set(rnd.randrange(1, total) for _ in range(4))))
+                acc.case((stream, cuts), nontrivial=True)
+                acc.add("streams_ending_on_a_full_4096_byte_read")
+                await run_partition(acc, clock, stream, frames, cuts, [], cid, f"full{total}{cutstyle}")
         # ---- random multi-cut partitions, bigger streams, garbage
         for c in range(spec["nrand"]):
             cid = f"rand:{shard}:{c}"
